@@ -602,3 +602,45 @@ package main
 //@   loop 1 invariant forall k int :: 0 <= k && k < iter && !PeerRuns(c.peers[k].cfg.NodeSelectors, c.nodeLabels) ==> c.peers[k].session == nil
 //@   loop 2 binds ns
 //@   loop 2 invariant shouldRun == (len(p.cfg.NodeSelectors) == 0) && (forall j int :: 0 <= j && j < iter ==> !p.cfg.NodeSelectors[j].Matches(c.nodeLabels))
+
+// ---- C09: configuration and node events request the full re-sync the statement relies on ----
+//@ func (Protocol).SetConfig
+//@   trusted
+//@   modifies nothing
+//@ func (Protocol).SetNode
+//@   trusted
+//@   modifies nothing
+// PoolsWf: the parser's pools (non-empty names, non-nil pools and networks; proved of poolsFor under C08)
+//@ pred PoolsWf(pools *config.Pools) := pools != nil ==> (forall n string :: (n in pools.ByName) ==> n != "" && pools.ByName[n] != nil && (forall k int :: 0 <= k && k < len(pools.ByName[n].CIDR) ==> pools.ByName[n].CIDR[k] != nil))
+// SetConfig: a missing configuration or one under which an announced Service's addresses lie in no pool is refused and
+// the current configuration stays; otherwise (handlers willing) the new configuration is installed and every Service is
+// re-processed
+//@ func (*controller).SetConfig
+//@   requires c != nil && c.svcIPs != nil && c.protocolHandlers != nil && (cfg != nil ==> PoolsWf(cfg.Pools))
+//@   requires forall p config.Proto :: (p in c.protocolHandlers) ==> c.protocolHandlers[p] != nil
+//@   ensures [missing] cfg == nil ==> result == controllers.SyncStateErrorNoRetry && c.config == old(c.config)
+//@   ensures [rejected] cfg != nil && (exists s string :: (s in c.svcIPs) && len(c.svcIPs[s]) > 0 && cfg.Pools != nil && (forall n string :: (n in cfg.Pools.ByName) ==> !HoldsAll(cfg.Pools.ByName[n], c.svcIPs[s]))) ==> result == controllers.SyncStateError && c.config == old(c.config)
+//@   ensures [applied] result == controllers.SyncStateReprocessAll ==> c.config == cfg
+//@   ensures [resync] c.config != old(c.config) ==> result == controllers.SyncStateReprocessAll
+//@   ensures [accepted] result == controllers.SyncStateReprocessAll ==> (forall s string :: (s in c.svcIPs) ==> cfg.Pools != nil && len(c.svcIPs[s]) > 0 && (exists n string :: (n in cfg.Pools.ByName) && HoldsAll(cfg.Pools.ByName[n], c.svcIPs[s])))
+//@   modifies controller.config, fresh []interface{}
+//@   loop 1 binds svc
+//@   loop 1 invariant c.config == old(c.config)
+//@   loop 1 invariant forall s string :: (s in visited) ==> cfg.Pools != nil && len(c.svcIPs[s]) > 0 && (exists n string :: (n in cfg.Pools.ByName) && HoldsAll(cfg.Pools.ByName[n], c.svcIPs[s]))
+//@   loop 2 binds proto
+//@   loop 2 invariant c.config == old(c.config)
+//@   loop 2 invariant forall s string :: (s in c.svcIPs) ==> cfg.Pools != nil && len(c.svcIPs[s]) > 0 && (exists n string :: (n in cfg.Pools.ByName) && HoldsAll(cfg.Pools.ByName[n], c.svcIPs[s]))
+
+// isNodeAvailableChanged / SetNode: a known node whose network-unavailable condition or exclusion label flips requests a
+// full re-sync
+//@ func isNodeAvailableChanged
+//@   requires newNode != nil
+//@   ensures result == ((newNode.Name in oldNodes) && (k8snodes.NetUnavail(oldNodes[newNode.Name]) != k8snodes.NetUnavail(newNode) || k8snodes.Excluded(oldNodes[newNode.Name]) != k8snodes.Excluded(newNode)))
+//@   modifies nothing
+//@ func (*controller).SetNode
+//@   requires c != nil && node != nil && c.nodes != nil && c.protocolHandlers != nil && (forall p config.Proto :: (p in c.protocolHandlers) ==> c.protocolHandlers[p] != nil)
+//@   ensures [recorded] (node.Name in c.nodes) && c.nodes[node.Name] == node
+//@   ensures [resync] result != controllers.SyncStateError ==> (result == controllers.SyncStateReprocessAll) == (old(node.Name in c.nodes) && (k8snodes.NetUnavail(old(c.nodes[node.Name])) != k8snodes.NetUnavail(node) || k8snodes.Excluded(old(c.nodes[node.Name])) != k8snodes.Excluded(node)))
+//@   modifies map(c.nodes), fresh []interface{}
+//@   loop 1 binds proto
+//@   loop 1 invariant (node.Name in c.nodes) && c.nodes[node.Name] == node
